@@ -14,7 +14,8 @@ def check_C04(tier, seed):
 
 
 def check_C05(tier, seed):
-    return seqcheck.run("C05", tier, seed, "obj2" if tier == "quick" else "obj3")
+    return seqcheck.run("C05", tier, seed, "obj2" if tier == "quick" else "obj3",
+                        random_histories=16 if tier == "quick" else 200)
 
 
 def check_C11(tier, seed):
@@ -125,4 +126,75 @@ def check_C09(tier, seed):
     v.coverage["checker_cmd"] = "tlc TraceLin (I_C09_Complete on every intermediate state) ; tlc TraceFault (I_C09_*)"
     v.assumptions.append("file proxies flush after every write, so a file written in place is "
                          "observable half-written between two of its write operations")
+    return v.finish()
+
+
+def _table_report(v, records, viol, props, desc_keys):
+    import collections
+    for name, k in viol:
+        prop = name.split("_")[0]
+        rec = records[k - 1] if k >= 1 else {}
+        desc = {"clause": name}
+        for key in desc_keys:
+            if key in rec:
+                val = rec[key]
+                desc[key] = "".join(val) if isinstance(val, list) and all(isinstance(x, str) for x in val) else val
+        if prop in props or prop == "COVER":
+            v.violation(desc, {"kind": "table", "clause": name, "record": rec,
+                               "how": "one API call (or the short call sequence named in the record) on a fresh store"})
+        else:
+            v.notes.append({"other_property_clause_false": name, "record": desc})
+    kinds = collections.Counter(r["kind"] for r in records)
+    v.coverage["evaluations"] = v.coverage.get("evaluations", 0) + len(records)
+    v.coverage["records_by_kind"] = dict(kinds)
+
+
+def check_C02(tier, seed):
+    from . import tables
+    v = Verdict("C02", tier, seed, "model_checking")
+    records, table, unsupported, r0 = tables.sweep_c02(tier, seed)
+    viol, r = tables.judge(records, expect_cover=True)
+    _table_report(v, records, viol, {"C02"}, ["kind", "add", "sum", "algo", "cls", "nth", "round"])
+    nsp = sum(len(s) for s in table.values())
+    v.coverage.update({
+        "states": r.distinct, "transitions": r.generated,
+        "traces_validated_against_impl": len(records),
+        "spellings_enumerated_by_tlc": nsp, "unsupported_names": len(unsupported),
+        "distinct_nontrivial": len({(rec["kind"], "".join(rec.get("add", []) or rec.get("algo", [])),
+                                     "".join(rec.get("sum", []))) for rec in records}),
+        "exhaustive": True,
+        "samples": [records[3], records[-1]],
+        "checker_cmd": "tlc MCAlgorithms (table sanity, enumeration) ; tlc TraceTables (I_C02_Keys, I_C02_Hex, I_Cover)",
+        "rule": "ONE store instance for the whole history; every spelling of every algorithm as "
+                "additional and as checksum algorithm, each followed by a plain call; random pairs; "
+                "get_hex_digest for every spelling in three rounds with the pid re-bound to other content"})
+    v.assumptions.append("digest values are compared with hashlib; the canonical algorithm of a spelling comes from Algorithms.tla, not from the code")
+    return v.finish()
+
+
+def check_C06(tier, seed):
+    from . import tables
+    v = seqcheck.run("C06", tier, seed, "obj2", finish=False)
+    records, table = tables.sweep_c06(tier, seed)
+    viol, r = tables.judge(records)
+    _table_report(v, records, viol, {"C06"},
+                  ["kind", "state", "call", "algo", "sumcase", "sizecase", "cls", "objBefore", "objAfter"])
+    v.coverage["verdict_product_records"] = len(records)
+    v.coverage["samples"].append(records[0])
+    v.coverage["checker_cmd"] += " ; tlc TraceTables (I_C06_Valid, I_C06_Invalid)"
+    return v.finish()
+
+
+def check_C01(tier, seed):
+    from . import tables
+    v = seqcheck.run("C01", tier, seed, "obj2", finish=False,
+                     random_histories=8 if tier == "quick" else 100)
+    records = tables.sweep_c01(tier, seed)
+    viol, r = tables.judge(records)
+    _table_report(v, records, viol, {"C01"}, ["kind", "size", "data", "algo", "cls", "cidTrue",
+                                             "sizeTrue", "retrievedSame", "stream", "err"])
+    v.coverage["size_kind_algorithm_records"] = len(records)
+    v.coverage["samples"].append(records[0])
+    v.coverage["checker_cmd"] += " ; tlc TraceTables (I_C01_Sweep)"
+    v.assumptions.append("sizes around 4096 and 8192 (the two read-buffer sizes Stream chooses: st_blksize of a file on this file system, 8192 for in-memory streams)")
     return v.finish()
